@@ -191,7 +191,7 @@ contract('Queue._add_queued', module=M, props=['C12', 'C03'],
 contract('Queue._check_ready', module=M, props=['C12', 'C03'],
          params={'self': 'Queue', 'now': 'Real'},
          requires=['INV_timetable(self)', 'GHOST_ok(self)'],
-         ensures=['INV_timetable(self)',
+         ensures=['INV_timetable(self)', 'GHOST_ok(self)',
                   # every due entry was handed to _dequeue and left the timetable; nothing else was
                   'forall(old(self.queued), lambda e: implies(e[0] <= now, e[1] in self.pending_dequeue and e[1] not in self.queued_ids))',
                   'forall(old(self.queued), lambda e: implies(e[0] > now, e[1] in self.queued_ids))',
@@ -244,6 +244,38 @@ contract('Queue._wait_store', module=M, props=['C12'], yields=True,
                 1: dict(inv=['INV_timetable(self)', 'GHOST_ok(self)', 'INV_flight(self)',
                              'forall(range(0, _k), lambda j: _seq1[j][1] in self.queued_ids or _seq1[j][1] in self.active_ids)'],
                         modifies=['contents(self.queued)', 'contents(self.queued_ids)', 'self.wake.flag'])})
+
+# ---------------------------------------------------------------------------- scheduler loop (C12)
+# ghost: the scheduler greenlet currently holds the timetable lock that flush() needs
+klass('Queue', ghost={'run_holds_lock': 'Bool'})
+QSHARED = ['contents(self.queued)', 'contents(self.queued_ids)', 'self.queued', 'self.queued_ids',
+           'contents(self.active_ids)', 'self.wake.flag', 'contents(self.pending_dequeue)',
+           'contents(self.attempting)', 'contents(self.pending_retry)']
+
+contract('Queue._wait_ready', module=M, props=['C12'], yields=True,
+         params={'self': 'Queue', 'now': 'Real'},
+         requires=['QUEUE_ok(self)',
+                   # lock discipline ("flush() returns without waiting on the scheduler loop"): the scheduler must
+                   # not go to sleep while it holds the lock flush() has to take
+                   'not self.run_holds_lock'],
+         ensures=['INV_timetable(self)', 'GHOST_ok(self)', 'INV_flight(self)'],
+         checks=['ncalls("Event.wait") <= 1',
+                 # sleeps until the first entry is due, not a moment longer; an empty timetable sleeps until woken
+                 'implies(old(len(self.queued)) > 0 and old(self.queued[0][0]) > now, ncalls("Event.wait") == 1 '
+                 '        and call_arg("Event.wait", 0, 1) == old(self.queued[0][0]) - now)',
+                 'implies(old(len(self.queued)) > 0 and old(self.queued[0][0]) <= now, ncalls("Event.wait") == 0)',
+                 'implies(old(len(self.queued)) == 0, ncalls("Event.wait") == 1 and call_arg("Event.wait", 0, 1) is None)'],
+         modifies=QSHARED)
+
+contract('Queue._run', module=M, props=['C12'], yields=True,
+         params={'self': 'Queue'},
+         requires=['QUEUE_ok(self)', 'self.queued_lock != None', 'self.store != None', 'not self.run_holds_lock'],
+         ghost_after={'self.queued_lock.acquire()': ['self.run_holds_lock = True'],
+                      'self.queued_lock.release()': ['self.run_holds_lock = False']},
+         ensures=['self.relay == None'],
+         modifies=QSHARED + ['self.queued_lock.counter', 'self.run_holds_lock', 'fresh'],
+         loops={0: dict(inv=['INV_timetable(self)', 'GHOST_ok(self)', 'INV_flight(self)', 'not self.run_holds_lock'],
+                        modifies=QSHARED + ['self.queued_lock.counter', 'self.run_holds_lock', 'fresh'])})
 
 contract('Queue._remove', module=M, props=['C01', 'C03', 'C13'],
          params={'self': 'Queue', 'id': 'Str'},
